@@ -29,7 +29,7 @@ NOTES = ('Resume equivalence is claimed for model-parallel degree 1; for M > 1 t
 def gen(rng, tier):
     D, M = rng.choice([(1, 1), (2, 1), (4, 1), (1, 2), (2, 2), (2, 1), (4, 2) if tier == 'thorough' else (2, 2)])
     layers = []
-    for _ in range(rng.randint(1, 3)):
+    for _ in range(rng.randint(1, 3) if rng.random() < 0.85 else rng.randint(11, 13)):      # > 10 layers: names '10', '11' end with '0', '1'
         kind = rng.choice(['col', 'row'])
         nin = M * rng.randint(1, 2) if kind == 'row' else rng.randint(1, 3)
         nout = M * rng.randint(1, 2) if kind == 'col' else rng.randint(1, 3)
@@ -114,7 +114,7 @@ def run(tier, seed, rng):
                 isave, iload = pre, pre + 1
                 held = [w.results[r][isave]['extra'] for r in range(W)]
                 nl = len(cfg['layers'])
-                names = [f'layers.{i}' for i in range(nl)]
+                names = [str(i) for i in range(nl)]          # DeepSpeed names pipeline layers by their global index
                 both = lambda h: h['A'] is not None and h['G'] is not None   # a rank may hold only one of the two factors of a sharded layer
                 dims = [(1, 1)] * nl
                 for i in range(nl):
